@@ -25,27 +25,27 @@ CHECKS = {
  "C01": dict(
     level=TV, design="2/C01", engine="detref",
     technique="z3 equivalence (QF_LIA+Bool) of the delta polynomial returned by the real wicks() with a bit-string vacuum-expectation circuit whose orbital positions are symbolic; plus z3 (QF_NRA) validation of wicks() on tensor x operator products against concrete determinant sums with symbolic tensor entries",
-    text="For every enumerated operator string (all of length 2, sampled/exhaustive length 4, sampled 3/5/6/8, 0-2 normal-ordered groups) z3 shows that wicks' result equals the determinant-space vev for every assignment of orbitals in a 2o2v (thorough 3o3v) model; contracted products incl. delta evaluation and block rules are validated against sum_assign prod T * vev for all tensor values.",
+    text="For every enumerated operator string (all of length 2, sampled/exhaustive length 4, sampled 3/5/6/8, 0-2 normal-ordered groups; balanced strings of number-conserving blocks with up to six general indices inside normal-ordered groups) z3 shows that wicks' result equals the determinant-space vev for every assignment of orbitals in a 2o2v (thorough 3o3v) model; contracted products incl. delta evaluation and block rules are validated against sum_assign prod T * vev for all tensor values.",
     note="Bounded: string shapes enumerated (not solver variables), model <=3o3v, spin-labelled operators not explored (documented refusal). Trusted: sympy's construction of NO objects, z3, vlib/detref.py (independent of adcgen's Wick code). sat models are replayed on concrete bit strings."),
  "C02": dict(
     level=TV, design="2/C02", engine="detref",
     technique="z3 polynomial-identity check of each derived ground-state expression (energy, MP amplitude, RE residual, 1-/2-particle expectation value) against explicit RSPT on occupation bit strings with symbolic integrals, orbital energies and lower-order amplitudes; z3 identity of the norm-factor order expansion with the series of 1/(1+x) obtained from c(1+x)=1; CrossHair on gen_term_orders",
-    text="Each expression returned by the real GroundState API is shown equal, for all integrals / orbital energies / lower-order amplitudes and all index assignments of a 2o2v (thorough: up to 3o3v) model, to the quantity computed by explicit determinant-space RSPT; orders <=3 in 2o2v quick; up to 3o3v, energy 4 and expectation value 4 thorough; mp and re; with/without first-order singles. The order expansion returned by expand_norm_factor is shown by z3 to be the lambda^n coefficient of 1/(1+x) for all overlap values (orders <=6/8/9 for min_order 1/2/3; thorough 8/11/12).",
+    text="Each expression returned by the real GroundState API is shown equal, for all integrals / orbital energies / lower-order amplitudes and all index assignments of a 2o2v (thorough: up to 3o3v) model, to the quantity computed by explicit determinant-space RSPT; orders <=3 in 2o2v quick, third-order singles in 3o3v and third-order doubles in 4o4v on a bounded number of target assignments (triples / quadruples couplings); up to 3o3v, energy 4 and expectation value 4 thorough; mp and re; with/without first-order singles. The order expansion returned by expand_norm_factor is shown by z3 to be the lambda^n coefficient of 1/(1+x) for all overlap values (orders <=6/8/9 for min_order 1/2/3; thorough 8/11/12).",
     note="Induction over the order: lower-order wavefunctions are free amplitude unknowns in adcgen's documented convention. Canonical orbitals for MP amplitudes; inverse orbital-energy forms are shared free unknowns (sound). Quadruples (need 4o4v) outside."),
  "C04": dict(
     level=TV, design="2/C04", engine="tvsmt",
     technique="z3 polynomial-identity check: the expression returned by the real overlap_isr is identically the antisymmetrised delta product (order 0, equal classes) or identically zero (all other cases) for all ground-state amplitude values and index assignments; overlap_precursor(I,J) vs (J,I) by z3; the real s_root with stubbed overlap blocks vs the matrix power series of S^(-1/2) by z3",
-    text="For the five ADC variants, the two lowest classes, all class pairs and orders <=2 (thorough <=3, order 4 for h/p/hh/pp), mp and re, with/without first-order singles, and for the triples class of pp/ip/ea against the lowest and doubles class (orders 0-1), z3 decides orthonormality of the derived intermediate states for all amplitude values in models that host both index tuples. s_root is executed with overlap_precursor stubbed by free block tensors and shown equal to the lambda^n coefficient of (1+sum S^(k))^(-1/2) as a matrix series over restricted composite indices (orders 2-6, thorough 8; classes ph, h, hh, pp, phh, pph, pphh); expand_S_taylor vs the series from y*y*(1+x)=1.",
+    text="For the five ADC variants, the two lowest classes, all class pairs and orders <=2 (third-order precursor-overlap symmetry and orthonormality of the lowest class with singles; thorough <=3, order 4 for h/p/hh/pp), mp and re, with/without first-order singles, and for the triples class of pp/ip/ea against the lowest and doubles class (orders 0-1), z3 decides orthonormality of the derived intermediate states for all amplitude values in models that host both index tuples. s_root is executed with overlap_precursor stubbed by free block tensors and shown equal to the lambda^n coefficient of (1+sum S^(k))^(-1/2) as a matrix series over restricted composite indices (orders 2-6, thorough 8; classes ph, h, hh, pp, phh, pph, pphh); expand_S_taylor vs the series from y*y*(1+x)=1.",
     note="Bounded orders/classes/models (stated in evidence). Amplitudes are free unknowns, bra amplitudes independent (identified for the precursor-overlap symmetry). The s_root kernel check stubs overlap_precursor (environment stub, stated in evidence)."),
  "C03": dict(
     level=TV, design="2/C03", engine="detref",
     technique="z3 polynomial-identity check of each derived secular-matrix block / precursor block / MVP against the order-n coefficient of <I|H-E0|J> between intermediate states built explicitly on occupation bit strings (excitation operators on the normalised perturbed ground state, projection, S^-1/2 from X X S = 1); transpose relation between two real outputs; CrossHair on block_order",
-    text="For all five variants, the blocks and orders of ADC(3) (quick: orders <=2, blocks with <=6 indices), subtract_gs on/off, every matrix element returned by the real code is shown equal to the explicit construction for all integrals, Fock matrices, amplitude values and bra/ket index assignments of the model; MVPs with the documented hidden-factor normalisation.",
+    text="For all five variants, the blocks and orders of ADC(3) (quick: orders <=2, blocks with <=6 indices), subtract_gs on/off, every matrix element returned by the real code is shown equal to the explicit construction for all integrals, Fock matrices, amplitude values and bra/ket index assignments of the model; MVPs with the documented hidden-factor normalisation; SecularMatrix.mvp vs the sum of its blocks over the harness' own ADC(n) truncation table.",
     note="Ground-state corrections are free amplitude unknowns in adcgen's convention (C02/C12 tie them to RSPT). Models: n_o,n_v = max(2,#h/#p); thorough adds 3o3v for small blocks. mp partitioning only (as the property states)."),
  "C05": dict(
     level=TV, design="2/C05", engine="detref",
     technique="z3 polynomial-identity check of each derived ISR expectation-value block contribution and transition moment against the order-n coefficient of the explicit matrix element (operator minus ground-state expectation value) between intermediate states / the normalised perturbed ground state built on occupation bit strings, contracted with free amplitude vectors using the documented normalisation",
-    text="For pp/ip/ea (thorough: dip/dea too) and the mixed ip/pp, pp/ea combinations, blocks of the two lowest classes, 1- and 2-particle operators, orders <=2, subtract_gs on/off, the scalar returned by the real code equals the explicit matrix-element contraction for all integrals, operator matrices, amplitude vectors and ground-state amplitudes of the model.",
+    text="For pp/ip/ea (thorough: dip/dea too) and the mixed ip/pp, pp/ea combinations, blocks of the two lowest classes, 1- and 2-particle operators, explicit and default operator strings, orders <=2, subtract_gs on/off, the scalar returned by the real code equals the explicit matrix-element contraction for all integrals, operator matrices, amplitude vectors and ground-state amplitudes of the model; expectation_value / trans_moment (which only sum contributions) vs the sum over the harness' own truncation table.",
     note="Same parametrisation and models as C03. Operator strings with unequal numbers of creators/annihilators are covered for transition moments (default string per variant + one non-default)."),
  "C20": dict(
     level=TV, design="2/C20", engine="tvsmt",
@@ -55,7 +55,7 @@ CHECKS = {
  "C06": dict(
     level=TV, design="2/C06", engine="tvsmt",
     technique="z3: value of every constructed tensor object (sign + stored index order) equals the entry its raw index tuple denotes under an independent reading of the declared symmetry, for all entries and orbital assignments of a typed model; CrossHair symbolic execution of _need_bra_ket_swap / sort_idx_canonical / preferred_and_killable (regenerated from source) over symbolic index attributes",
-    text="All pairs (rank 1|1) and sampled tuples (ranks 2|2, 2|1, 3|3; 4|2, 4|4 and thorough 5|1 over spinless names) over a 21-index pool (occ/virt/general, spin none/alpha/beta, numbered names) x 3 tensor classes x bra-ket 0/+1/-1, all delta pairs, substitutions, and Expr assumptions (idempotence direct, value by z3). CrossHair confirms totality/antisymmetry of the bra-ket swap decision and the canonical sort order for symbolic spaces, spins and names.",
+    text="All pairs (rank 1|1) and sampled tuples (ranks 2|2, 2|1, 3|3; 4|2, 4|4 and thorough 5|1 over spinless names) over a 21-index pool (occ/virt/general, spin none/alpha/beta, numbered names) x 3 tensor classes x bra-ket 0/+1/-1, all delta pairs, substitutions, and Expr assumptions on generated expressions incl. exponents (idempotence direct, value by z3). CrossHair confirms totality/antisymmetry of the bra-ket swap decision and the canonical sort order for symbolic spaces, spins and names.",
     note="Oracle for 'declared symmetry' = vlib/model.canon_entry (independent). Bounded index pool and ranks; CrossHair stubs: duck-typed Index, hash(idx)=0. The bra-ket-antisymmetric diagonal (not listed by the property as a forced zero) is not demanded."),
  "C18": dict(
     level=TV, design="2/C18", engine="tvsmt",
@@ -64,13 +64,13 @@ CHECKS = {
     note="Only the value conjunct is a solver verdict (kinds/text have no quantifier left). Default tensor-name configuration; bra-ket symmetries only through Expr assumptions (object-level flags are not printed)."),
  "C10": dict(
     level=TV, design="2/C10", engine="tvsmt",
-    technique="SMT translation validation: every (permutation product, +-1) reported by the real Term.symmetry/Obj.symmetry is checked by z3 against the term with the composed permutation applied independently; the parts returned by exploit_perm_sym / sort.by_* / filter_tensor are re-assembled and compared with the input by z3 (symbolic tensor entries, all target assignments); filing keys recomputed directly",
+    technique="SMT translation validation: every (permutation product, +-1) reported by the real Term.symmetry/Obj.symmetry is checked by z3 against the term with the composed permutation applied independently, and every reported transposition must preserve the index range (space and spin); the parts returned by exploit_perm_sym / sort.by_* / filter_tensor are re-assembled and compared with the input by z3 (symbolic tensor entries, all target assignments); filing keys recomputed directly",
     text="Generated terms (1-3 tensors, denominators, exponents, spin) in the three index modes and per object; expressions symmetrised over random subgroups (generic terms and twin terms: two copies of one tensor with the targets distributed) for exploit_perm_sym with all target-string / bra-ket / result-tensor options; five sorters and filter_tensor.",
     note="Bounded generator and models (<=3o3v). Permutations are applied by sympy's simultaneous substitution of the composed map, not by adcgen's permute. Cases in which Term.symmetry does not finish within the per-case limit give no verdict (counted in evidence)."),
  "C14": dict(
     level=TV, design="2/C14", engine="tvsmt",
     technique="SMT translation validation: block expressions returned by the real remove_tensor are re-contracted with the canonical tensor blocks (documented normalisation) and compared with the input by z3; the symmetry of each block expression is checked by z3; derivative blocks contracted with a free variation tensor are compared by z3 with the first-order coefficient of expr(T + eps dT)",
-    text="Generated expressions (Einstein-unambiguous) with removable tensors of ranks 1|1, 2|2, 2|1, non-symmetric rank 2/3, bra-ket 0/+1/-1 and ADC amplitude vectors, incl. target-carrying and repeated indices on the removed tensor; derivative with 1-2 occurrences and exponent 2.",
+    text="Generated expressions (Einstein-unambiguous) with removable tensors of ranks 1|1, 2|2, 2|1, non-symmetric rank 2/3, bra-ket 0/+1/-1 and ADC amplitude vectors, incl. target-carrying and repeated indices on the removed tensor and spin-labelled indices (mixed spin blocks); derivative with 1-2 occurrences and exponent 2.",
     note="remove_tensor: one occurrence per term (normalisation for several occurrences is undocumented: outside); derivative: all tensor indices contracted (with target indices on the tensor the block result carries no deltas: outside). Normalisation c/|G| fixed from the docstrings."),
  "C13": dict(
     level=TV, design="2/C13", engine="tvsmt",
